@@ -670,6 +670,20 @@ def modelStep (st : St) (op : List String) (ows : List String) : Option ModelOut
   let keep := fun (srv : Server) (ret branch : String) =>
     some (⟨some srv, st.rfs, st.sfs, st.bak, ret, branch, false, false⟩ : ModelOut)
   match op with
+  | ["merge", sS, "|", dS] =>
+    -- `StagedElements::merge_new_elements` alone (pure function, through a hook)
+    match parseElems sS, parseElems dS with
+    | some stg, some d =>
+      let res := mergeNew stg d
+      let kinds : List String := (Delta.ordered d).map fun e =>
+        let sk := match Staged.findWith rsEq stg e.uri with
+          | some (.publish ..) => "P" | some (.update ..) => "U" | some (.withdraw ..) => "W" | none => "-"
+        let ek := match e with | .publish .. => "p" | .update .. => "u" | .withdraw .. => "w"
+        sk ++ ek
+      some { srv := st.srv, rfs := st.rfs, sfs := st.sfs, bak := st.bak,
+             ret := if res.isEmpty then "-" else showElemsSorted res,
+             branch := "+".intercalate (sortStr kinds.eraseDups), files := false }
+    | _, _ => none
   | "init" :: args =>
     match parseUri ((kv? args "base").getD "") with
     | none => none
@@ -845,7 +859,7 @@ def step (st : St) (line : String) : St × String :=
     let st1 := if orcAll.isEmpty then st1 else { st1 with taint := true }
     let mismatch : Option String :=
       if m.ret != ret then some s!"ret: expected [{m.ret}] observed [{ret}]"
-      else if m.dead then none
+      else if m.dead || op.headD "" == "merge" then none   -- `merge` lines carry no observation of the server
       else compareObs m ows
     match mismatch with
     | some diff =>
